@@ -39,6 +39,12 @@ class LI(N):
 
 
 @dataclass
+class LF(LI):  # universe "falsy": the inner class is falsy in a boolean context although it holds children
+    def __bool__(self) -> bool:
+        return False
+
+
+@dataclass
 class LR(N):
     req: N = None  # type: ignore[assignment]
 
@@ -145,6 +151,7 @@ class Model:
     def __init__(self, mode: str, universe: str = "full"):
         self.mode = mode
         self.universe = universe
+        self.inner = LF if universe == "falsy" else LI
 
     # ---- world --------------------------------------------------------------------------------------
     def fresh(self):
@@ -216,19 +223,19 @@ class Model:
         if k == "leaf":
             return LL(op[1], origin=NO_ORIGIN)
         if k == "mkopt":
-            return LI(opt=nodes[op[1]], origin=NO_ORIGIN)
+            return self.inner(opt=nodes[op[1]], origin=NO_ORIGIN)
         if k == "mktup":
-            return LI(tup=(nodes[op[1]],), origin=NO_ORIGIN)
+            return self.inner(tup=(nodes[op[1]],), origin=NO_ORIGIN)
         if k == "mktup2":
-            return LI(tup=(nodes[op[1]], nodes[op[2]]), origin=NO_ORIGIN)
+            return self.inner(tup=(nodes[op[1]], nodes[op[2]]), origin=NO_ORIGIN)
         if k == "mklst":
-            return LI(lst=[nodes[op[1]]], origin=NO_ORIGIN)
+            return self.inner(lst=[nodes[op[1]]], origin=NO_ORIGIN)
         if k == "mklst2":
-            return LI(lst=[nodes[op[1]], nodes[op[2]]], origin=NO_ORIGIN)
+            return self.inner(lst=[nodes[op[1]], nodes[op[2]]], origin=NO_ORIGIN)
         if k == "mkreq":
             return LR(req=nodes[op[1]], origin=NO_ORIGIN)
         if k == "mk3":
-            return LI(opt=nodes[op[1]], tup=(nodes[op[2]],), lst=[nodes[op[3]]], origin=NO_ORIGIN)
+            return self.inner(opt=nodes[op[1]], tup=(nodes[op[2]],), lst=[nodes[op[3]]], origin=NO_ORIGIN)
         if k == "dup":
             return nodes[op[1]].duplicate()
         if k == "dupdet":
@@ -478,7 +485,7 @@ def _clone(n):
         return LL(n.v, origin=n.origin, create_detached=True)
     if isinstance(n, LR):
         return LR(req=_clone(n.req), origin=n.origin, create_detached=True)
-    return LI(opt=None if n.opt is None else _clone(n.opt), tup=tuple(_clone(c) for c in n.tup), lst=[_clone(c) for c in n.lst],
+    return type(n)(opt=None if n.opt is None else _clone(n.opt), tup=tuple(_clone(c) for c in n.tup), lst=[_clone(c) for c in n.lst],
               origin=n.origin, create_detached=True)
 
 
